@@ -581,7 +581,8 @@ def c10(pid, tier, work, replay):
 def event_check(pid, tier, work, module, cfg, mc, runs, rule, assumptions, race_pid=None, exhaustive=False):
     """Drivers that record event traces (one event per line), validated by a trace specification."""
     t0 = time.time()
-    bins = set(b for _, b, _, _ in runs)
+    module0, cfg0 = module, cfg
+    bins = set(r[1] for r in runs)
     C.build(set({"vipsim": "sim", "vipreal": "real", "viprace": "race"}[b] for b in bins) | {"sim"})
     mcs = [C.model_check(m, c, work) for m, c in mc]
     for m in mcs:
@@ -590,7 +591,8 @@ def event_check(pid, tier, work, module, cfg, mc, runs, rule, assumptions, race_
     nlines = ntr = 0
 
     def one(run):
-        name, binary, args, focus = run
+        name, binary, args, focus = run[:4]
+        module, cfg = run[4] if len(run) > 4 else (module0, cfg0)      # a run may be validated by another module
         tp = os.path.join(work, name + ".ndjson")
         st = os.path.join(work, name + ".status")
         _, status, rc, out = C.run_sim({}, work, name, binary=binary, args=[a.replace("@TRACE", tp).replace("@STATUS", st).replace("@WORK", work) for a in args])
@@ -641,7 +643,7 @@ def event_check(pid, tier, work, module, cfg, mc, runs, rule, assumptions, race_
                     cur.append({k: v for k, v in ln.items() if k not in ("bad", "badamt", "i")})
             if len(samples) < 3:
                 samples.append(cur)
-        C.log("trace %s: %d events accepted (%s)" % (j.name, j.lines, module))
+        C.log("trace %s: %d events accepted (%s)" % (j.name, j.lines, j.module))
     if exhaustive and not mcs:
         # the TLC run over a complete case table is the exhaustive enumeration of the specification's case set
         mcs.append({"module": module, "cfg": cfg, "states": nlines, "transitions": nlines, "wall_s": 0})
@@ -708,14 +710,18 @@ def c16(pid, tier, work, replay):
 
 
 def c18(pid, tier, work, replay):
-    runs = [("c18-table", "vipsim", ["agenttable", "@TRACE", "@STATUS"], "x")]
+    runs = [("c18-table", "vipsim", ["agenttable", "@TRACE", "@STATUS"], "x"),
+            ("c18-ethnode", "vipreal", ["ethtable", "@TRACE", "@STATUS"], "x", ("VipEthNode", "VipEthNode.cfg"))]
     return event_check(
         pid, tier, work, "VipAgentTrace", "VipAgentTrace.cfg", [], runs,
         "complete table over two peer slots: local address class {absent, A, B, loopback} x pool-active class {absent, A, B, loopback, "
         "unspecified, no address} x declared invalid {no, as id, as enode URI}, squared, x strict peering on/off = 10368 rounds on a light geth "
         "node (a third of them again on a full node and a light parity node), with targets 0/1/3/5 and pool outcomes (ok, update fails, peer request "
         "fails with no-hosts / internal / other error, no peers returned) cycled through; all rounds of one configuration are consecutive keep-alive "
-        "rounds of ONE Agent (multi-round histories); compared: the multiset of node calls and the pool calls with arguments",
+        "rounds of ONE Agent (multi-round histories); compared: the multiset of node calls and the pool calls with arguments; plus the complete "
+        "table node flavour (geth, geth light, parity, parity old, parity light, pantheon, unknown) x operation (dial, connect, disconnect, trust, "
+        "un-trust x bare id / enode URI, own enode, block number, peer list x entry shape) = 109 cases of ethnode.RemoteNode against a recording "
+        "JSON-RPC server: the requests each operation is on the wire and the peer ids read back (VipEthNode)",
         ["node and pool are recording fakes behind the ethnode.EthNode and pool.Pool interfaces"],
         exhaustive=True)
 
